@@ -376,78 +376,85 @@ func runDB(in dbInput) dbOutput {
 		got.sort()
 		out.Rows += len(got.Trace) + len(got.Tag) + len(got.Ms) + len(got.Seg)
 
-		// expected rows
-		var want dbRows
-		for _, t := range b.Tasks {
-			a := attrOf(t[0])
-			want.Trace = append(want.Trace, traceRow{a.ID, a.Parent, a.Kind, a.What, a.Location, float64(t[1]), float64(t[2])})
-		}
-		for _, t := range b.Tags {
-			want.Tag = append(want.Tag, tagRow{riderID(int(t[0])), attrOf(t[1]).ID, float64(t[2]), dbTagNames[t[3]-1]})
-		}
-		for _, s := range b.Segs {
-			want.Seg = append(want.Seg, segRow{float64(s[1]), float64(s[2])})
-		}
-		want.sort()
-		if !sameRows(want.Trace, got.Trace) {
-			miss("trace", want.Trace, got.Trace)
-		}
-		if !sameRows(want.Tag, got.Tag) {
-			miss("tag", want.Tag, got.Tag)
-		}
-		if !sameRows(want.Seg, got.Seg) {
-			miss("segment", want.Seg, got.Seg)
-		}
-		// milestones: exactly one row per (task, instant) group, and it is one of the
-		// milestones fed at that instant, unchanged
-		type group struct {
-			task  uint64
-			time  float64
-			cands map[uint64]bool
-			hits  int
-		}
-		var groups []*group
-		for _, raw := range b.Ms {
-			var parts []json.RawMessage
-			var task, tm int64
-			var cands []int64
-			if json.Unmarshal(raw, &parts) != nil || len(parts) != 3 ||
-				json.Unmarshal(parts[0], &task) != nil || json.Unmarshal(parts[1], &tm) != nil || json.Unmarshal(parts[2], &cands) != nil {
-				miss("backend", "", "malformed milestone group "+string(raw))
-				continue
-			}
-			g := &group{task: attrOf(task).ID, time: float64(tm), cands: map[uint64]bool{}}
-			for _, c := range cands {
-				g.cands[riderID(int(c))] = true
-			}
-			groups = append(groups, g)
-		}
-		okMs := true
-		for _, r := range got.Ms {
-			found := false
-			for _, g := range groups {
-				if g.task == r.TaskID && g.time == r.Time && g.cands[r.ID] {
-					f := fed[r.ID]
-					if f.kind == r.Kind && f.what == r.What {
-						g.hits++
-						found = true
-					}
-				}
-			}
-			if !found {
-				okMs = false
-			}
-		}
-		for _, g := range groups {
-			if g.hits != 1 {
-				okMs = false
-			}
-		}
-		if !okMs {
-			miss("milestone", b.Ms, got.Ms)
-		}
+		diffRows(&b, got, fed, miss)
 	}
 	return out
+}
+
+// diffRows compares the rows read from the database with the sets the
+// specification demands (b.Tasks, b.Tags, b.Ms, b.Segs) and calls miss for
+// every table that differs.
+func diffRows(b *dbBehaviour, got dbRows, fed map[uint64]fedMs, miss func(table string, want, got any)) {
+	// expected rows
+	var want dbRows
+	for _, t := range b.Tasks {
+		a := attrOf(t[0])
+		want.Trace = append(want.Trace, traceRow{a.ID, a.Parent, a.Kind, a.What, a.Location, float64(t[1]), float64(t[2])})
+	}
+	for _, t := range b.Tags {
+		want.Tag = append(want.Tag, tagRow{riderID(int(t[0])), attrOf(t[1]).ID, float64(t[2]), dbTagNames[t[3]-1]})
+	}
+	for _, s := range b.Segs {
+		want.Seg = append(want.Seg, segRow{float64(s[1]), float64(s[2])})
+	}
+	want.sort()
+	if !sameRows(want.Trace, got.Trace) {
+		miss("trace", want.Trace, got.Trace)
+	}
+	if !sameRows(want.Tag, got.Tag) {
+		miss("tag", want.Tag, got.Tag)
+	}
+	if !sameRows(want.Seg, got.Seg) {
+		miss("segment", want.Seg, got.Seg)
+	}
+	// milestones: exactly one row per (task, instant) group, and it is one of the
+	// milestones fed at that instant, unchanged
+	type group struct {
+		task  uint64
+		time  float64
+		cands map[uint64]bool
+		hits  int
+	}
+	var groups []*group
+	for _, raw := range b.Ms {
+		var parts []json.RawMessage
+		var task, tm int64
+		var cands []int64
+		if json.Unmarshal(raw, &parts) != nil || len(parts) != 3 ||
+			json.Unmarshal(parts[0], &task) != nil || json.Unmarshal(parts[1], &tm) != nil || json.Unmarshal(parts[2], &cands) != nil {
+			miss("backend", "", "malformed milestone group "+string(raw))
+			continue
+		}
+		g := &group{task: attrOf(task).ID, time: float64(tm), cands: map[uint64]bool{}}
+		for _, c := range cands {
+			g.cands[riderID(int(c))] = true
+		}
+		groups = append(groups, g)
+	}
+	okMs := true
+	for _, r := range got.Ms {
+		found := false
+		for _, g := range groups {
+			if g.task == r.TaskID && g.time == r.Time && g.cands[r.ID] {
+				f := fed[r.ID]
+				if f.kind == r.Kind && f.what == r.What {
+					g.hits++
+					found = true
+				}
+			}
+		}
+		if !found {
+			okMs = false
+		}
+	}
+	for _, g := range groups {
+		if g.hits != 1 {
+			okMs = false
+		}
+	}
+	if !okMs {
+		miss("milestone", b.Ms, got.Ms)
+	}
 }
 
 func sameRows[T comparable](a, b []T) bool {
